@@ -33,6 +33,8 @@ pub fn gen_octets(cx: &mut Cx, label: &str, tag: u64) -> Opt {
         1 => Some(Vec::new()),
         2 => { let n = 1 + cx.ch.choose("oct_len", 40) as usize; Some(bytes_for(cx.run_seed, label.as_bytes(), tag, n)) }
         3 => { let n = [255usize, 256, 257, 300, 4095, 4096, 4097, 6000][cx.ch.choose("oct_len_b", 8) as usize]; Some(bytes_for(cx.run_seed, label.as_bytes(), tag, n)) }
+        // a structured header as JWP / VC stacks use them: a JSON object, not in canonical form
+        4 if cx.ch.chance("json_header", 1, 2) => Some(format!("{{\"iss\": \"https://issuer.example/{}\",\"exp\":{}, \"alg\":\"BBS\"}}", tag, 1_790_000_000u64 + (cx.run_seed & 0xffff)).into_bytes()),
         4 => Some(bytes_for(cx.run_seed, label.as_bytes(), tag, 16)),
         _ => Some(bytes_for(cx.run_seed, label.as_bytes(), tag, 65536 + cx.ch.choose("oct_len_big", 3) as usize)),
     }
@@ -79,7 +81,17 @@ pub fn gen_messages(cx: &mut Cx, label: &str, tag_base: u64, small_only: bool) -
     // long lists: 1 in 3 carries repeated messages (padding attributes, several empty ones)
     let long_repeats = l > 20 && cx.ch.chance("long_list_with_repeats", 1, 3);
     if long_repeats { cx.count("n.workload_long_list_with_repeats"); }
+    // framing-ambiguous neighbours: x and x SEP x for a separator somebody might join lists with
+    // (swapping them leaves a separator-joined encoding of the list unchanged)
+    let sep_pair = l >= 2 && l <= 20 && cx.ch.chance("separator_ambiguous_pair", 1, 6);
+    let sep = [0x00u8, b',', b'\n', 0x1f, b'|'][cx.ch.choose("separator", 5) as usize];
+    if sep_pair { cx.count("n.workload_separator_ambiguous_pair"); }
     for i in 0..l {
+        if sep_pair && i < 2 {
+            let x = bytes_for(cx.run_seed, b"sep-x", tag_base, 3);
+            v.push(if i == 0 { x } else { [x.clone(), vec![sep], x].concat() });
+            continue;
+        }
         if i > 0 && l <= 20 && cx.ch.chance("dup_msg", 1, 10) {
             let j = cx.ch.choose("dup_of", i as u64) as usize;
             let m = v[j].clone();
